@@ -16,7 +16,7 @@ BUDGET_S = {'quick': 120, 'thorough': 1200}
 BOUNDS = {
     'quick': 'one build_file on a/b/c/t (target depth 3) and a/t (depth 1): target and every ancestor symbolic (absent / '
              'foreign file / foreign directory with or without content) or stale (output / created directory of a '
-             'previous build, optionally tampered); modes ok / raise before write / raise after write / no create / '
+             'previous build, optionally tampered); modes ok / ok returning the empty tuple / raise before write / raise after write / no create / non-JSON falsy return values (empty set, empty bytes, empty frozenset, range(0)) / '
              'non-JSON return; mkdir made to fail (OSError ENAMETOOLONG, or the ValueError of a name with a NUL byte) at each level; 4 spellings of the path; previous output at an '
              'ancestor position of the new target (a, a/b, a/b/c) with a deeper mkdir failing, optionally followed by a failing root',
     'thorough': 'plus a sibling output in the same new directory (reservation counting) and two prefixes',
@@ -29,6 +29,7 @@ WITNESSES = {'quick': ['success', 'user-failure', 'mkdir-fault', 'stale-target',
 CHAIN = ['a', 'a/b', 'a/b/c', 'a/b/c/t']
 UNI = ['a', 'a/t', 'a/b', 'a/b/z', 'a/b/c', 'a/b/c/t']
 MODES = ['ok', 'raise_before', 'raise_after', 'no_create', 'nonjson', 'raise_TypeError', 'raise_RuntimeError', 'raise_FileNotFoundError']
+NONJSON_FALSY = {'nonjson_set': set, 'nonjson_bytes': bytes, 'nonjson_frozenset': frozenset, 'nonjson_range': lambda: range(0)}
 SPELL = ['abs', 'rel', 'dotdot', 'slashes']
 
 
@@ -38,6 +39,10 @@ def families(tier):
         {'name': 'fresh', 'params': {'target': 'a/b/c/t', 'modes': ['ok', 'raise_before'], 'faults': ['a', 'a/b', 'a/b/c'],
                                      'fault_excs': ['ValueError']}, 'weight': 1},
         {'name': 'fresh', 'params': {'target': 'a/t', 'modes': MODES, 'faults': [None, 'a']}, 'weight': 1},
+        # return values that are not JSON but falsy (an empty set, b'', ...), and the empty tuple (JSON: normalised to [])
+        {'name': 'fresh', 'params': {'target': 'a/b/c/t', 'modes': sorted(NONJSON_FALSY) + ['ok_empty_tuple'], 'faults': [None]}, 'weight': 1},
+        {'name': 'stale', 'params': {'target': 'a/b/c/t', 'modes': sorted(NONJSON_FALSY) + ['ok_empty_tuple'], 'faults': [None],
+                                     'mut_kinds': ['none', 'delete']}, 'weight': 1},
         # the target's own file name is over-long (every stat / open of it fails with ENAMETOOLONG)
         {'name': 'fresh', 'params': {'target': 'a/b/c/t', 'long_name': True, 'modes': MODES, 'faults': [None]}, 'weight': 1},
         {'name': 'fresh', 'params': {'target': 'a/b/c/t', 'nul_name': True, 'modes': ['ok', 'no_create', 'raise_before', 'raise_after'], 'faults': [None]}, 'weight': 1},
@@ -115,6 +120,11 @@ class Run:
             raise self.raised
         if self.mode == 'nonjson':
             return NotJson()
+        if self.mode in NONJSON_FALSY:
+            # not JSON either - and falsy, like the None / [] / {} most functions return
+            return NONJSON_FALSY[self.mode]()
+        if self.mode == 'ok_empty_tuple':
+            return ()
         return (1, (2, {'k': (3,)}))
 
     def root(self, b):
@@ -276,9 +286,12 @@ def harness(eng, fam, P):
             eng.check('C10.target-absent-at-start', oi.get('absent_at_start') is True and oi.get('virt_in') == (False, False), sig,
                       info={'absent_at_start': oi.get('absent_at_start'), 'virt_in': oi.get('virt_in')})
             ret = oi['ret']
-            eng.check('C10.return-json-normalised',
-                      ret == [1, [2, {'k': [3]}]] and type(ret) is list and type(ret[1]) is list and
-                      type(ret[1][1]['k']) is list, sig, info={'ret': repr(ret)})
+            if mode == 'ok_empty_tuple':
+                eng.check('C10.return-json-normalised', type(ret) is list and ret == [], sig, info={'ret': repr(ret)})
+            else:
+                eng.check('C10.return-json-normalised',
+                          ret == [1, [2, {'k': [3]}]] and type(ret) is list and type(ret[1]) is list and
+                          type(ret[1][1]['k']) is list, sig, info={'ret': repr(ret)})
         elif oi.get('outcome') is not None:
             if P.get('long_name') and fault_path is None and mode.startswith('raise') and fam == 'fresh' and chain_free:
                 # nothing prevents the call itself (the parents can be created, the target is absent): the function runs and
